@@ -22,7 +22,10 @@ RULE = ('cases: valid scalars by class (1, 2, 3, n-1, n-2, 2^k, 2^k-1, sparse, s
         'Address(data) and Address(hashed_data); p2sh, p2wsh, p2sh-p2wsh from a script; p2tr from a 32-byte program} x '
         '{base58, bech32} (non-standard encoding/type pairs are judged by a weak rule, see assumptions); negative: scalars '
         '0, n, n+1, 2^256-1, random >= n in every private format; off-curve x with both prefixes, x >= p, uncompressed '
-        'points off the curve (random y, y^1, swapped, zero), off-curve tuples, hybrid 06/07 encodings. non-trivial = distinct '
+        'points off the curve (random y, y^1, swapped, zero), off-curve tuples, hybrid 06/07 encodings; sequences in ONE process of '
+        'related keys (a point and its negation = both parities of one x, the same secret / point through different formats and '
+        'compression flags, private then public) under four construct/observe schedules, every object re-observed at the end '
+        '(exposes state kept between key objects). non-trivial = distinct '
         '(case kind, scalar/point class, import format, compressed, network) and (network, address cell, route) tuples')
 TRUSTED_BASE = ['vf/refs/secp256k1.py (self-checked on G, 2G, (n-1)G, nG, hash160 vector)',
                 'vf/refs/chain.py + vf/refs/codec.py (Base58Check, Bech32/Bech32m self-checked on BIP173/350 vectors)',
@@ -428,6 +431,144 @@ def run_public(case, col, rnd):
         _check_script_addresses(col, rnd, pubbytes, net, case)
 
 
+# ------------------------------------------------------------------ sequences: state kept between key objects
+SCHEDULES = ('eager', 'lazy-reverse', 'lazy-forward', 'interleaved')
+
+
+def _views_pool(d_known):
+    """All ways this workload can present a point: (sign, kind, fmt, compressed). sign -1 = the negated point
+    (same x, opposite parity; secret n-d)."""
+    pool = []
+    for sign in (1, -1):
+        for fmt in PUB_FORMATS:
+            pool.append([sign, 'public', fmt, fmt not in ('hex-uncompressed', 'bytes-uncompressed')])
+        if d_known:
+            for fmt in PRIV_FORMATS:
+                for c in (True, False):
+                    if _fmt_compressed(fmt, c) == c:
+                        pool.append([sign, 'private', fmt, c])
+    return pool
+
+
+def gen_sequence(rnd, net):
+    """Related keys imported back to back in one process: the same point / its negation (same x, other parity) / the
+    same secret through different formats and compression flags, observed under different schedules."""
+    if rnd.random() < 0.5:
+        d = gen_scalar(rnd)
+        pt = ec.mul_g(d)
+    else:
+        d = None
+        while True:
+            pt = ec.lift_x(rnd.randrange(1, P), rnd.random() < 0.5)
+            if pt is not None:
+                break
+    pool = _views_pool(d is not None)
+    r = rnd.random()
+    if r < 0.45:
+        # both parities of one x as compressed public keys, either order, then anything
+        comp = [v for v in pool if v[1] == 'public' and v[3] and v[2] != 'tuple']
+        first = rnd.choice(comp)
+        second = rnd.choice([v for v in comp if v[0] == -first[0]])
+        views = [first, second] + [rnd.choice(pool) for _ in range(rnd.randint(0, 2))]
+        rel = 'parity-pair'
+    elif r < 0.7 and d is not None:
+        pr = [v for v in pool if v[1] == 'private']
+        views = [rnd.choice(pr) for _ in range(rnd.randint(2, 4))]
+        views[1][0] = views[0][0] if rnd.random() < 0.5 else -views[0][0]
+        rel = 'same-or-negated-secret-formats'
+    else:
+        views = [rnd.choice(pool) for _ in range(rnd.randint(2, 5))]
+        if len({v[0] for v in views}) == 1:
+            views[-1] = [-views[0][0]] + list(rnd.choice(pool))[1:]
+        rel = 'mixed-views'
+    views = [list(v) for v in views]
+    for v in views:
+        dd = None if d is None else (d if v[0] == 1 else N - d)
+        if v[2] == 'hex01' and dd is not None and ('%064x' % dd)[:2] in ('02', '03'):
+            v[2] = 'hex'
+    return {'kind': 'sequence', 'relation': rel, 'd': ('%x' % d) if d is not None else None, 'x': '%x' % pt[0], 'y': '%x' % pt[1],
+            'views': views, 'schedule': rnd.choice(SCHEDULES), 'network': net}
+
+
+def run_sequence(case, col, rnd):
+    net = case['network']
+    d0 = int(case['d'], 16) if case.get('d') else None
+    pt0 = (int(case['x'], 16), int(case['y'], 16))
+    if not ec.on_curve(pt0) or (d0 is not None and ec.mul_g(d0) != pt0):
+        col.note_inconclusive('sequence generator produced an inconsistent base point')
+        return
+    items = []
+    for sign, kind, fmt, compressed in case['views']:
+        pt = pt0 if sign == 1 else (pt0[0], P - pt0[1])
+        d = None if (d0 is None or kind != 'private') else (d0 if sign == 1 else N - d0)
+        if kind == 'private' and d is None:
+            col.note_inconclusive('private view of a point without known secret')
+            return
+        pubc, pubu = ec.encode_pub(pt, True), ec.encode_pub(pt, False)
+        if kind == 'private':
+            compressed = _fmt_compressed(fmt, bool(compressed))
+            mk = (lambda fmt=fmt, d=d, c=compressed: _construct_private(fmt, d, net, c))
+        else:
+            compressed = fmt not in ('hex-uncompressed', 'bytes-uncompressed')
+            mk = (lambda fmt=fmt, pubc=pubc, pubu=pubu, pt=pt: _construct_public(fmt, pubc, pubu, pt, net)[0])
+        items.append({'mk': mk, 'd': d, 'pt': pt, 'compressed': compressed, 'label': '%s%s/%s' % ('+' if sign == 1 else '-', kind, fmt),
+                      'case': dict(case, item=[sign, kind, fmt, compressed], fmt=fmt)})
+    sched = case.get('schedule', 'eager')
+    sig = tuple(sorted({(it['label'], it['compressed']) for it in items[:2]}))
+    col.case('sequence/%s/%s' % (case.get('relation'), sched), nontrivial=('sequence', case.get('relation'), sched, sig, len(items)), sample=case)
+
+    def construct(it):
+        col.probe('seq.construct')
+        try:
+            it['k'] = it['mk']()
+            return True
+        except Exception as e:
+            col.violation(None, 'sequence %s: valid key %s refused: %r' % (case.get('relation'), it['label'], e), it['case'], repr(e)[:300],
+                          ec.encode_pub(it['pt'], it['compressed']).hex())
+            it['k'] = None
+            return False
+
+    def observe(it, when):
+        if it.get('k') is None:
+            return
+        col.probe('seq.observe')
+        what = 'sequence %s, item %s (%s)' % (case.get('relation'), it['label'], when)
+        _check_keyobj(col, it['k'], it['d'], it['pt'], it['compressed'], dict(it['case'], when=when), what)
+        # uncompressed / compressed P2PKH address from a fresh object of the same view (address_uncompressed flips the flag)
+        try:
+            k2 = it['mk']()
+            got = (k2.address_uncompressed(), it['mk']().address(script_type='p2pkh', encoding='base58'))
+        except Exception as e:
+            col.violation(None, '%s: address_uncompressed()/address() raised %r' % (what, e), dict(it['case'], when=when), repr(e)[:300], None)
+            return
+        exp = (rchain.address_base58(net, 'p2pkh', ec.hash160(ec.encode_pub(it['pt'], False))),
+               rchain.address_base58(net, 'p2pkh', ec.hash160(ec.encode_pub(it['pt'], it['compressed']))))
+        if got != exp:
+            col.violation(None, '%s: address_uncompressed() / own-form P2PKH address are not those of this point' % what, dict(it['case'], when=when),
+                          list(got), list(exp))
+
+    if sched == 'eager':
+        for it in items:
+            if construct(it):
+                observe(it, 'right after construction')
+    elif sched == 'interleaved':
+        prev = None
+        for it in items:
+            construct(it)
+            if prev is not None:
+                observe(prev, 'after the next key was constructed')
+            prev = it
+        observe(prev, 'last')
+    else:
+        for it in items:
+            construct(it)
+        for it in (reversed(items) if sched == 'lazy-reverse' else items):
+            observe(it, 'after all keys were constructed')
+    # every object again, in the other direction: nothing observed later may change what an earlier key reports
+    for it in (items if sched == 'lazy-reverse' else reversed(items)):
+        observe(it, 're-observed at the end')
+
+
 # ------------------------------------------------------------------ negative checks
 def _try_accept(make):
     """-> (accepted, key object or None, address or None, exception)"""
@@ -586,7 +727,7 @@ def gen_bad_public(rnd):
 
 # ------------------------------------------------------------------ plan / shards / replay
 def run_case(case, col, rnd=None):
-    rnd = rnd or random.Random('replay-%s' % case.get('d', case.get('enc', '')))
+    rnd = rnd or random.Random('replay-%s' % (case.get('d') or case.get('enc') or case.get('x') or ''))
     k = case['kind']
     if k == 'private':
         run_private(case, col, rnd)
@@ -596,6 +737,8 @@ def run_case(case, col, rnd=None):
         run_bad_scalar(case, col)
     elif k == 'bad-public':
         run_bad_public(case, col)
+    elif k == 'sequence':
+        run_sequence(case, col, rnd)
 
 
 def _selfcheck(col):
@@ -629,7 +772,7 @@ def run_shard(spec, col):
     if not _selfcheck(col):
         return
     for p in ('key.private', 'key.public', 'keyfacts', 'address.key', 'address.obj', 'address.script', 'address.p2tr', 'address.hdkey',
-              'address.nonstandard_pair', 'neg.scalar', 'neg.public', 'key.public()'):
+              'address.nonstandard_pair', 'neg.scalar', 'neg.public', 'key.public()', 'seq.construct', 'seq.observe'):
         col.require(p)
     # the library must know exactly the golden networks (a missing/extra network is a change the table must follow)
     from bitcoinlib.networks import NETWORK_DEFINITIONS
@@ -663,9 +806,20 @@ def run_shard(spec, col):
         if j % ns == sh:
             run_bad_scalar({'kind': 'bad-scalar', 'd': '%x' % d, 'cls': cl, 'fmt': f, 'network': next_net(), 'compressed': True}, col)
 
+    # a key and its negation (same x, both parities) as compressed public keys, both orders, on shard-specific small scalars
+    for j, (a, b) in enumerate(((1, -1), (-1, 1))):
+        d = 1 + sh * 2 + j
+        pt = ec.mul_g(d)
+        run_sequence({'kind': 'sequence', 'relation': 'parity-pair', 'd': '%x' % d, 'x': '%x' % pt[0], 'y': '%x' % pt[1],
+                      'views': [[a, 'public', 'hex', True], [b, 'public', 'bytes', True]], 'schedule': SCHEDULES[(sh + j) % len(SCHEDULES)],
+                      'network': next_net()}, col, rnd)
+
     for i in range(n):
         r = rnd.random()
         net = next_net()
+        if rnd.random() < 0.12:
+            run_sequence(gen_sequence(rnd, net), col, rnd)
+            continue
         if r < 0.45:
             d = gen_scalar(rnd)
             fmt = rnd.choice(PRIV_FORMATS)
